@@ -226,6 +226,13 @@ class Case(object):
         it = self.items.get(id_)
         return it.e if it is not None else None
 
+    def loc_key(self, loc):
+        """registers by name; pointers by the addresses they denote (a key may be re-shaped
+        in place into an equivalent pointer: base/displacement folding)"""
+        if loc._is_ptr:
+            return "ptr:" + repr([self.evaluate(loc, k) for k in range(K)])
+        return str(loc)
+
     # -- holders: what a map holds must not change unless the map is written -----------
     def snapshot_map(self, mid):
         from ..heap import fingerprint
@@ -237,7 +244,7 @@ class Case(object):
         snap = {}
         try:
             for loc, v in m:
-                snap[str(loc)] = {"fp": fingerprint(v), "vals": [self.evaluate(v, k) for k in range(K)], "size": v.size}
+                snap[self.loc_key(loc)] = {"fp": fingerprint(v), "vals": [self.evaluate(v, k) for k in range(K)], "size": v.size}
         except Exception:
             return
         self.held[mid] = snap
@@ -247,7 +254,7 @@ class Case(object):
         allowed) and memory by content (adjacent raw parts joined)"""
         ent = {}
         for loc, v in m:
-            ent[str(loc)] = [v.size] + [self.evaluate(v, k) for k in range(K)]
+            ent[self.loc_key(loc)] = [v.size] + [self.evaluate(v, k) for k in range(K)]
         zones = []
         mm = m.mmap
         for rel in sorted(mm._zones, key=lambda x: str(x)):
@@ -304,7 +311,7 @@ class Case(object):
                 continue
             now = {}
             for loc, v in m:
-                now[str(loc)] = v
+                now[self.loc_key(loc)] = v
             if set(now) != set(snap):
                 raise Failure("map-content-changed", {"map": mid, "appeared": sorted(set(now) - set(snap))[:4], "vanished": sorted(set(snap) - set(now))[:4]})
             for l, v in now.items():
